@@ -40,7 +40,7 @@ def run_comb(desc, build, ref, prop, alphabets=None, max_viol=3, use_clk=False):
     try:
         hw, ins, outs = build(desc)
     except (AssertionError, Exception) as e:
-        py4hw.Wire.prepared = []
+        core.reset_prepared()
         return {'constructor_rejected': 1, 'configs': 1, 'evaluations': 0, 'distinct_nontrivial': 0,
                 'vacuous_ok': True, 'distinct_outcomes': 0,
                 'samples': [{'config': desc, 'rejected': repr(e)[:160]}], 'violations': []}
